@@ -36,7 +36,7 @@ ASSUMPTIONS = [
 ]
 BOUNDS = {'quick': {'coefs': [-.5, .25, .5], 'consts': [0., 1.]}, 'thorough': {'coefs': [-.5, -.25, .25, .5], 'consts': [0., 1., -3.5]}}
 
-DRESS = ['plain', 'lagexo', 'user-t-endo', 'user-t-exo', 'k-expr', 'loop-names']
+DRESS = ['plain', 'lagexo', 'user-t-endo', 'user-t-exo', 'k-expr', 'loop-names', 'transfer']
 MATH_ENV = dict((k, getattr(math, k)) for k in dir(math) if not k.startswith('_'))
 
 
@@ -64,6 +64,12 @@ def dress(eqs, kind, maxtime, excess):
         eqs.append(('trend', '0.5*k'))
         eqs[0] = (eqs[0][0], eqs[0][1] + ' + 0.1*trend')
         return Block(eqs, maxtime=maxtime, tol='1e-6')
+    if kind == 'transfer':
+        # a closed pair written in transfer form (what one stock loses the other gains): the iterates move by equal and
+        # opposite amounts
+        eqs.append(('DA', 'LAG_DA + g - 0.5*DA + 0.25*DB'))
+        eqs.append(('DB', 'LAG_DB + 0.5*DA - 0.25*DB'))
+        return Block(eqs, lags=[('LAG_DA', 'DA'), ('LAG_DB', 'DB')], exos=[('g', glist)], maxtime=maxtime, tol='1e-6')
     if kind == 'loop-names':
         # variables spelled like the generated solver's own loop state
         eqs.append(('err', '0.5*err + .25*x'))
@@ -248,6 +254,34 @@ def run_block(block, gen_red, case):
             v, i = agree_with_inprocess(obj, block, c2)
             viols.extend(v)
             indet += i
+    # history: the SAME generator object is given a second block that states no tolerance of its own
+    if not viols:
+        second = Block([('x', '.5*y + 2.'), ('y', '.25*x + 1.'), ('z', 'x - y')], maxtime=2, tol=None)
+        loose = Block.from_json(block.as_json())
+        loose.tol = '0.05'
+        path = os.path.join(d, 'gen_reuse.py')
+        c3 = dict(case, emission='second block on the same generator object')
+        try:
+            g2 = IterativeMachineGenerator(loose.text(), run_equation_reduction=gen_red)
+            g2.main(path)
+            g2.ParseString(second.text())
+            g2.main(path)
+            obj = load_module(path).SFCModel()
+            core.with_deadline(30.0, obj.main)
+            ref = Block.from_json(second.as_json())
+            ref.tol = '1e-8'      # the parser's documented default
+            v, i = check_module(obj, ref, c3)
+            for x in v:
+                x['key'] = 'reused-generator:' + x['key']
+            viols.extend(v)
+            indet += i
+        except core.WorkBudgetExceeded:
+            viols.append(core.violation('unbounded-work', 'generated module did not stop', c3))
+        except Exception as e:
+            viols.append(core.violation('reused-generator:fails:' + type(e).__name__, '%s: %s' % (type(e).__name__, str(e)[:150]), c3))
+        finally:
+            if os.path.exists(path):
+                os.remove(path)
     return ('ok' if not viols else 'violation'), viols, indet
 
 
@@ -290,7 +324,7 @@ def run_unit(unit, tier):
                 continue
             simultaneous = any(NAMES[j] in picks[i][1] and NAMES[i] in picks[j][1] for i in range(n) for j in range(n) if i != j)
             for kind, maxtime, excess, red in itertools.product(DRESS, (1, 3), (False, True), (False, True)):
-                if excess and kind in ('plain', 'user-t-endo', 'k-expr', 'loop-names'):
+                if excess and kind in ('plain', 'user-t-endo', 'k-expr', 'loop-names', 'transfer'):
                     continue
                 blk = dress(eqs, kind, maxtime, excess)
                 case = {'eqs': eqs, 'dress': kind, 'maxtime': maxtime, 'excess': excess, 'generator_reduction': red}
